@@ -40,7 +40,15 @@ RULE = ("random acyclic component graphs (2-12 nodes, all component types, requi
         "queued or not], RuntimeError(\"cannot schedule new futures after shutdown\") or BrokenThreadPool. "
         "Oracle there: the same history invariant; when the fault fired, 'attempted exactly once' is relaxed to "
         "'at most once' and nothing is asserted about whether the call raises. Non-trivial there: the fault "
-        "fired after at least one sub-graph had been dispatched and something was attempted.")
+        "fired after at least one sub-graph had been dispatched and something was attempted. "
+        "Sub-check evolving: histories of 2-4 steps over one set of components while the registry grows - each "
+        "(registry point, implementation) pair is registered (SpecSet subclass) at a generated stage: before the "
+        "first step, between two steps or never; a registry point may get a second implementation; a step asks "
+        "for get_dependency_graph of 1-3 targets or evaluates on a fresh broker through dr.run / run_incremental / "
+        "run_all [+ pool] given a list, set, single component, the harness' graph dict or the registry's per-group "
+        "sets. Oracle there: the same history invariant / dependency-closure check with respect to the "
+        "dependencies declared at the moment of the step. Non-trivial there: a component above a registry point "
+        "was asked for before and after an implementation was added to that registry point.")
 ASSUMPTIONS = ["graphs are acyclic; component bodies do not touch the broker themselves",
                "archive sub-check: a (de)serializer pair for tuple is registered through the public serde "
                "decorators for the duration of a case (the generated bodies return tuples)",
